@@ -177,6 +177,116 @@ func ruleC13AllAncestors(c *Ctx) {
 		})
 		c.verdictIf(joins && rejects, rule, f, "prefix handling", loop.Pos(), "each prefix is accumulated with Join and a non-directory prefix is rejected", "the loop does not accumulate prefixes with Join or does not reject non-directory prefixes")
 	}
+	// the accumulated prefix starts empty and gets a leading separator only for an absolute path: a relative name
+	// (archives whose members are "proj/...") must yield relative prefixes, or the created directories live under a
+	// different spelling than their siblings and are never listed
+	if loop != nil {
+		var acc types.Object
+		ast.Inspect(loop.Body, func(m ast.Node) bool {
+			as, ok := m.(*ast.AssignStmt)
+			if !ok || len(as.Lhs) != 1 || len(as.Rhs) != 1 {
+				return true
+			}
+			call, ok := ast.Unparen(as.Rhs[0]).(*ast.CallExpr)
+			if !ok || !(isPkgFunc(calleeObj(info, call), "path/filepath", "Join") || isPkgFunc(calleeObj(info, call), "path", "Join")) || len(call.Args) < 2 {
+				return true
+			}
+			if o := objOfIdent(info, as.Lhs[0]); o != nil && objOfIdent(info, call.Args[0]) == o {
+				acc = o
+			}
+			return true
+		})
+		if acc == nil {
+			c.bad(rule, f, "prefix seed", loop.Pos(), "the loop does not accumulate the prefix as `p = Join(p, part)`")
+		} else {
+			fl := c.flow(f)
+			k := 0
+			walkOwn(f.Body(), func(nd ast.Node) {
+				as, ok := nd.(*ast.AssignStmt)
+				if !ok || (as.Pos() >= loop.Pos() && as.End() <= loop.End()) {
+					return
+				}
+				for i, l := range as.Lhs {
+					if objOfIdent(info, l) != acc || i >= len(as.Rhs) {
+						continue
+					}
+					k++
+					if sv, ok := constString(info, as.Rhs[i]); ok && sv == "" {
+						c.ok(rule, f, fmt.Sprintf("prefix seed#%d", k), as.Pos(), true, "the prefix starts empty")
+						continue
+					}
+					absOnly, reach := fl.guardedBy(as, func(ft Fact) bool {
+						call, ok := ast.Unparen(ft.E).(*ast.CallExpr)
+						return ok && ft.Pos && (isPkgFunc(calleeObj(info, call), "path/filepath", "IsAbs") || isPkgFunc(calleeObj(info, call), "path", "IsAbs")) && len(call.Args) == 1 && usesObj(info, call.Args[0], pathParam)
+					}, nil)
+					if !reach {
+						continue
+					}
+					c.verdictIf(absOnly, rule, f, fmt.Sprintf("prefix seed#%d", k), as.Pos(), "a leading separator is added only for an absolute path",
+						"the accumulated prefix is seeded with "+exprString(as.Rhs[i])+" also for a relative path: MkdirAll(\"proj/a/b\") creates \"/proj\", \"/proj/a\", ... which are stored under a different spelling than the relative names of the archive and never show up in its listings")
+				}
+			})
+			if k == 0 {
+				c.unresolved("no initialisation of the accumulated prefix found in MkdirAll")
+			}
+		}
+	}
+	// the parent of the FIRST prefix is the root itself, which no iteration looks up: it has to be established before
+	// the loop (a Stat of the seed / the store's root path), as Mkdir and Create do for their parent
+	if loop != nil {
+		stat := c.fn("pkg/inventory", "Stat")
+		fl := c.flow(f)
+		rootChecked, _ := fl.dominatedBy(loop.X, func(m ast.Node) bool {
+			found := false
+			ast.Inspect(m, func(x ast.Node) bool {
+				call, ok := x.(*ast.CallExpr)
+				if !ok {
+					return true
+				}
+				if fn, ok := calleeObj(info, call).(*types.Func); ok && fn.Name() == "GetRootPath" {
+					found = true
+				}
+				if stat != nil && c.statSubject(stat, info, call, 0) != nil {
+					found = true
+				}
+				return true
+			})
+			return found
+		}, nil)
+		c.verdictIf(rootChecked, rule, f, "root established before the loop", loop.Pos(), "the root is looked up before the first prefix is created beneath it",
+			"MkdirAll never looks up the root before creating the first prefix beneath it: after RemoveAll(\"/\") (which the filesystem accepts) MkdirAll(\"/y\") succeeds and leaves a live entry without a live parent, while Mkdir(\"/y\") is refused")
+	}
+	// success is reported only after the ancestor loop ran, or for an entry that was tested to be a directory:
+	// a shortcut "the path resolves, nothing to do" would accept MkdirAll over an existing regular file
+	if loop != nil {
+		fl := c.flow(f)
+		k := 0
+		for _, ret := range returnsIn(f) {
+			if !returnsNil(info, ret) {
+				continue
+			}
+			k++
+			afterLoop, reach := fl.dominatedBy(ret, func(m ast.Node) bool { return m == ast.Node(loop.X) || containsNode(m, loop.X) }, nil)
+			if !reach {
+				continue
+			}
+			isDirFact := func(ft Fact) bool {
+				txt := exprString(ft.E)
+				if be, ok := ast.Unparen(ft.E).(*ast.BinaryExpr); ok && strings.Contains(txt, "Typeflag") && strings.Contains(txt, "TypeDir") {
+					return be.Op == token.EQL && ft.Pos || be.Op == token.NEQ && !ft.Pos
+				}
+				if call, ok := ast.Unparen(ft.E).(*ast.CallExpr); ok {
+					if se, ok := ast.Unparen(call.Fun).(*ast.SelectorExpr); ok && se.Sel.Name == "IsDir" {
+						return ft.Pos
+					}
+				}
+				return false
+			}
+			dirTested, _ := fl.guardedBy(ret, isDirFact, nil)
+			c.verdictIf(afterLoop || dirTested, rule, f, fmt.Sprintf("success return#%d", k), ret.Pos(),
+				"success only after every prefix was visited (or the entry was tested to be a directory)", "MkdirAll reports success on a path that skips the ancestor loop without testing that the existing entry is a directory: MkdirAll over an existing regular file would succeed")
+		}
+	}
 	// SplitList never receives a filesystem path parameter anywhere in pkg/ and internal/
 	n := 0
 	for _, g := range c.Funcs {
